@@ -9,16 +9,23 @@ cmb_dataset_initialize, then count = cursize = N and xa -> array of N real symbo
 of n+1 undefined cells.  The only branches that fork are the variance guard and the two halves of
 the debug assertion `(acf[ulag] >= -1.0) && (acf[ulag] <= 1.0)` (abort paths via cmi_assert_failed).
 
-The variance guard is read off the path conditions: it is the conjunct that compares the local `var`
-with a number eps.  The repaired library has `if (!(var > 0.0))`, i.e. eps = 0 and the dividing
-('high') path carries `var > 0`; the former `if (var < min_acf_variance)` / `if (var < 1e-9)` gives
-eps = 1e-9 and `var >= 1e-9` on the dividing path.  Both forms are executed; an absolute threshold
-(eps > 0) is not an extraction break but a failed obligation of C18.O5.acf_scale.
+Paths are classified by what they DO: 'high' divides by the local `var`, 'low' does not (it writes the
+zeros).  The variance guard is the one branch condition that separates the two.  When it compares
+`var` with a number eps: the repaired library has `if (!(var > 0.0))`, i.e. eps = 0 and the dividing
+path carries `var > 0`; the former `if (var < min_acf_variance)` / `if (var < 1e-9)` gives eps = 1e-9
+and `var >= 1e-9`.  Any other guard (e.g. `var > 1e-9 * fmax(1.0, m1 * m1)`, relative to the mean) is
+executed as well (fmax -> Max): the definition is still proved on the dividing path under its path
+condition, and whether the side of the guard depends on a shift / a scale of the data is decided by a
+proof attempt (same guard expression / homogeneous of degree 2) and a witness search over rational
+(x, s) / (x, c) points on the real-code paths.  A witness FAILS the obligation `the branch taken does
+not depend on the shift s / the scale c` (with a native replay of both data sets); neither proof nor
+witness leaves that one obligation UNDECIDED.  So an absolute threshold is a failed obligation of
+C18.O5.acf_scale, a mean-relative one of C18.O5.acf_shift (and acf_scale) - not an extraction break.
 
 Groups:  C18.O5.acf_lag0   acf[0] == 1, indices in bounds, divisors non-zero, acf[k] == definition,
                            constant data -> 0 (pinned)
          C18.O5.acf_range  can the debug assertion -1 <= acf[k] <= 1 fail? (N = 4, every legal lag)
-         C18.O5.acf_shift  ACF(x + s) == ACF(x), var(x + s) == var(x)
+         C18.O5.acf_shift  ACF(x + s) == ACF(x), var(x + s) == var(x); the branch taken does not depend on s
          C18.O5.acf_scale  ACF(c x) == ACF(x) for c > 0; the branch taken does not depend on c (proved when
                            the guard compares with 0; an absolute threshold fails with a witness: defect (e))
 
@@ -203,33 +210,51 @@ class Run(object):
         d['cursize'] = vint(N)
         d['xa'] = gx.aptr('xa#1')
         self.outs = cx.ex.run(FUNC, [vptr('ds#1'), vint(n), gx.aptr('acf#1')], st)
-        self.var = self.eps = self.strict = self.eps_name = None
+        self.var = self.eps = self.strict = self.eps_name = self.guard_hi = None
         self.paths = []
+        names = {}
         for o in self.outs:
             nm = o.state.named
             if (FUNC, 'var') not in nm:
                 self.paths.append(Path(o, 'early', 'acf#1'))      # precondition abort
                 continue
             var = nm[(FUNC, 'var')].e
-            gd = guard_conjunct(o.state.pc, var)
-            if gd is None:
-                raise ExtractionBreak('path is not classified by a comparison of `var` with a constant: pc = %s'
-                                      % short(o.state.pc))
-            op, eps = gd
-            # new code: `!(var > 0.0)`           -> 'var <= 0' (low) | 'var > 0' (high): strict, eps = 0
-            # old code: `var < min_acf_variance` -> 'var < eps' (low) | 'var >= eps' (high): not strict, eps = 1e-9
-            br = 'high' if op in ('>', '>=') else 'low'
-            strict = op in ('>', '<=')
             if self.var is None:
-                self.var, self.eps, self.strict = var, eps, strict
-                named = nm.get((FUNC, 'min_acf_variance'))
-                if named is not None and named.e == eps:
-                    self.eps_name = 'min_acf_variance'
-            elif self.var != var or self.eps != eps or self.strict != strict:
-                raise ExtractionBreak('var or the variance guard differs between paths')
+                self.var, names = var, nm
+            elif self.var != var:
+                raise ExtractionBreak('var differs between paths')
+            # classified by what the path DOES: 'high' divides by var, 'low' does not (it writes the zeros)
+            br = 'high' if any(d[0] == var for d in o.state.divisors) else 'low'
             self.paths.append(Path(o, br, 'acf#1'))
         if self.var is None:
             raise ExtractionBreak('no path of %s reaches the variance' % FUNC)
+        # the variance guard: the one branch condition that separates the dividing paths from the others
+        his = [p.state.pc for p in self.paths if p.branch == 'high']
+        los = [p.state.pc for p in self.paths if p.branch == 'low']
+        if his and los:
+            k = 0
+            while k < min(len(his[0]), len(los[0])) and his[0][k] == los[0][k]:
+                k += 1
+            if k >= min(len(his[0]), len(los[0])) or sp.Not(his[0][k]) != los[0][k]:
+                raise ExtractionBreak('the dividing and the non-dividing paths are not separated by one branch condition: '
+                                      '%s | %s' % (short(his[0]), short(los[0])))
+            self.guard_hi = his[0][k]
+            if any(pc[:k + 1] != his[0][:k + 1] for pc in his) or any(pc[:k + 1] != los[0][:k + 1] for pc in los):
+                raise ExtractionBreak('the variance guard differs between paths')
+        else:
+            self.guard_hi = sp.true if his else sp.false         # no guard met: a single side exists
+        # its form: `var OP number` (eps, strict), or something else (eps = None: e.g. a threshold relative to the mean)
+        #   new code: `!(var > 0.0)`           -> 'var > 0' on the dividing side: strict, eps = 0
+        #   old code: `var < min_acf_variance` -> 'var >= eps' on the dividing side: not strict, eps = 1e-9
+        gd = guard_conjunct([self.guard_hi], self.var)
+        if gd is not None and gd[0] in ('>', '>='):
+            self.eps, self.strict = gd[1], gd[0] == '>'
+            named = names.get((FUNC, 'min_acf_variance'))
+            if named is not None and named.e == self.eps:
+                self.eps_name = 'min_acf_variance'
+        self._pretty = {self.var: sp.Symbol('var')}
+        if (FUNC, 'm1') in names and not names[(FUNC, 'm1')].e.is_number:
+            self._pretty[names[(FUNC, 'm1')].e] = sp.Symbol('m1')
         self.line_var = self.trace_line('var') or 615
         # the guard is the statement after the last one executed before it (acf[0] = 1.0, or the named threshold)
         self.line_guard = (self.trace_line(self.eps_name or 'acf[0]') or self.line_var + 2) + 1
@@ -255,17 +280,43 @@ class Run(object):
         return 0
 
     # ---- the variance guard, as found in the path conditions
+    def simple_guard(self):
+        """the guard compares var with a number"""
+        return self.eps is not None
+
     def eps_txt(self):
+        if self.eps is None:
+            return '?'
         return '0' if self.eps == 0 else ('%g' % float(self.eps)).replace('e-0', 'e-')
 
+    def guard_txt(self):
+        """the dividing side of the guard in terms of the locals var and m1, long rationals shown as floats"""
+        e = self.guard_hi
+        if e in (sp.true, sp.false):
+            return 'no guard (%s)' % ('always divides' if e is sp.true else 'never divides')
+        e = e.xreplace(self._pretty)
+        e = e.xreplace({r: sp.Float(r, 6) for r in e.atoms(sp.Rational) if r.q > 10 ** 6})
+        return short(e, 160)
+
     def hi_txt(self):
+        if self.eps is None:
+            return self.guard_txt()
         return 'var %s %s' % ('>' if self.strict else '>=', self.eps_txt())
 
     def lo_txt(self):
+        if self.eps is None:
+            return '!(%s)' % self.guard_txt()
         return ('!(var > %s)' if self.strict else 'var < %s') % self.eps_txt()
 
-    def in_high(self, v):
-        return bool(v > self.eps) if self.strict else bool(v >= self.eps)
+    def high_at(self, pt):
+        """is the (total, rational) point on the dividing side of the guard?"""
+        v = self.guard_hi.subs(pt)
+        if v is sp.true or v is sp.false:
+            return v is sp.true
+        v = sp.simplify(v)
+        if v is sp.true or v is sp.false:
+            return v is sp.true
+        raise ExtractionBreak('the guard is not decided at %s' % pt)
 
     def good(self, branch):
         return [p for p in self.paths if p.branch == branch and not p.aborted]
@@ -460,14 +511,23 @@ def g_lag0(cx):
                 continue
             ok = False
             for c in p.state.pc:
-                if not (isinstance(c, (sp.Ge, sp.Gt)) and c.rhs.is_number and sp.expand(c.lhs - e) == 0):
+                if not (isinstance(c, (sp.Ge, sp.Gt)) and (c.lhs == e or (c.rhs.is_number and sp.expand(c.lhs - e) == 0))):
                     continue
                 # e > r with r >= 0, or e >= r with r > 0, is a conjunct of the path condition: e != 0
-                if (isinstance(c, sp.Gt) and c.rhs >= 0) or (isinstance(c, sp.Ge) and c.rhs > 0):
+                # (r a number, or an expression whose sign sympy derives, e.g. 1e-9 * Max(1, m1^2) > 0)
+                r = c.rhs
+                if not r.is_number and r.is_nonnegative is None:
+                    try:
+                        r = sp.factor(r)            # e.g. 1e-9 * m1 * m1 -> a square
+                    except Exception:
+                        pass
+                if (isinstance(c, sp.Gt) and r.is_nonnegative is True) or (isinstance(c, sp.Ge) and r.is_positive is True):
                     ok = True
             if not ok:
                 fails.append(('divisor not shown non-zero under the path condition', 'line %d: %s' % (d[2], short(e, 200))))
-    why = '%s%s is a conjunct of the path condition' % (run.hi_txt(), '' if run.strict or run.eps <= 0 else ' > 0')
+    why = '%s%s is a conjunct of the path condition' % (
+        run.hi_txt(), ' > 0' if run.simple_guard() and not run.strict and run.eps > 0 else
+        (' (right side >= 0)' if not run.simple_guard() else ''))
     g.ob('every real divisor met is non-zero under the path condition (ui + 1, count - 1, ustop concrete; '
          '%s on the path that divides by var; %d divisions on %d paths)' % (why, nd, len(run.paths)),
          nd > 0 and not fails, lk, detail=fails[:6])
@@ -558,7 +618,10 @@ def g_range(cx):
     found = {}
     for pt in candidate_points(xs):
         v = varn.subs(pt)
-        if not run.in_high(v):
+        try:
+            if not run.high_at(pt):
+                continue
+        except (ExtractionBreak, TypeError, ValueError):
             continue
         for k, e in exprs.items():
             if k in found:
@@ -641,6 +704,89 @@ def pair_outputs(g, a, b, n, what, line):
         g.ob('%s: acf[%d] identical on the path pair (both %s)' % (what, k, a.hi_txt()), ok, line, trace=hb.state.trace, detail=det)
 
 
+# ---- does the side of the variance guard depend on the transformation parameter (shift s / scale c)?
+def base_points(N):
+    """data sets for the branch search: ordinary ones, small-variance ones (the x1000 smaller copies), constant ones"""
+    pts = [[0, 1, 0, 2], [1, -1, 1, -1], [0, 0, 1, 1], [1, 2, 3, 5],
+           [sp.Rational(-7, 3), sp.Rational(5, 2), 0, sp.Rational(1, 9)]]
+    pts += [[sp.Rational(v) / 1000 for v in p] for p in pts[:2]]
+    pts += [[1, 1, 1, 1], [0, 0, 0, 0]]
+    return [[sp.Rational(v) for v in (p[-N:] if p == [0, 0, 1, 1] else p[:N])] for p in pts]
+
+
+def branch_search(a, b, xs, par, vals):
+    """rational points x and parameter values whose real-code paths (run a on x, run b on the transformed data) lie on
+    different sides of the guard -> (witness or None, number of points on the same side, number skipped)"""
+    same = skipped = 0
+    for x0 in base_points(len(xs)):
+        for val in vals:
+            pt = dict(zip(xs, x0))
+            ptb = dict(pt)
+            ptb[par] = val
+            try:
+                pa, pb = a.path_at(pt), b.path_at(ptb)
+            except ExtractionBreak:
+                skipped += 1
+                continue
+            if pa.branch == pb.branch:
+                same += 1
+            elif not pa.aborted and not pb.aborted:
+                return (x0, val, pt, ptb, pa, pb), same, skipped
+            else:
+                skipped += 1
+    return None, same, skipped
+
+
+def guard_diff(run):
+    """D with: dividing side <=> D > 0 (or D >= 0) -> (D, relation type) or None"""
+    e = run.guard_hi
+    if isinstance(e, (sp.Gt, sp.Ge)):
+        return e.lhs - e.rhs, type(e)
+    if isinstance(e, (sp.Lt, sp.Le)):
+        return e.rhs - e.lhs, {sp.Lt: sp.Gt, sp.Le: sp.Ge}[[t for t in (sp.Lt, sp.Le) if isinstance(e, t)][0]]
+    return None
+
+
+def branch_obligation(g, cx, a, b, n, xs, par, tname, text, proved, why_not, search, tdata, tag):
+    """report `the branch taken does not depend on <par>`: a witness FAILS it (with the native replay of both data
+    sets), a proof plus a clean cross-check makes it SUCCESS, otherwise it is UNDECIDED (the group goes on)."""
+    wit, same, skipped = search
+    text = text % {'same': same}
+    if wit:
+        x0, val, pt, ptb, pa, pb = wit
+        oa = [fl(pa.acf[k].subs(pt)) for k in sorted(pa.acf)]
+        ob = [fl(pb.acf[k].subs(ptb)) for k in sorted(pb.acf)]
+        side = lambda r, q: r.hi_txt() if q.branch == 'high' else r.lo_txt()       # noqa: E731
+        xt = '(%s)' % ', '.join(str(v) for v in x0)
+        det = [('witness x', xt), ('witness %s' % par, '%s = %g' % (val, fl(val))),
+               ('var(x)', '%.6g  -> branch %s' % (fl(a.var.subs(pt)), side(a, pa))),
+               ('var(%s)' % tname, '%.6g  -> branch %s' % (fl(b.var.subs(ptb)), side(a, pb))),
+               ('ACF(x)', json.dumps(oa)), ('ACF(%s)' % tname, json.dumps(ob)), tag]
+        na = native_run(cx, n, x0)
+        nb = native_run(cx, n, [tdata(v, val) for v in x0])
+
+        def as_branch(nat, q):      # the native run took the same side of the guard as the symbolic path q
+            out = nat.get('stdout', '')
+            if q.branch == 'low':
+                return 'WARNING' in out and out.endswith('ACF 1' + ' 0' * n)
+            return 'WARNING' not in out
+        agrees = bool(na.get('exit') == 0 and nb.get('exit') == 0 and as_branch(na, pa) and as_branch(nb, pb))
+        g.native = {'ACF(x) replay': na, 'ACF(%s) replay' % tname: nb, 'agrees': agrees}
+        det = det + [('native ACF(x)', na.get('stdout', na.get('error', ''))),
+                     ('native ACF(%s)' % tname, nb.get('stdout', nb.get('error', '')))]
+        g.ob(text, False, a.line_guard, trace=pb.state.trace, detail=det)
+        g.reason = ('%s: x = %s, %s = %g: ACF(x) = %s but ACF(%s) = %s' % (tag[1].split(':')[0], xt, par, fl(val), oa, tname, ob))
+    elif proved and same > 0:
+        g.ob(text, True, a.line_guard)
+    else:
+        why = why_not
+        if same == 0:
+            why += '; no rational point could be cross-checked on the real-code paths'
+        g.ob(text, None, a.line_guard,
+             detail={'note': 'no witness among the candidate points (%d on the same side, %d skipped) and not proved: %s'
+                             % (same, skipped, why)})
+
+
 def g_shift(cx):
     g = Group('C18.O5.acf_shift', cx.cmds)
     N, n = N_MAIN, LAGS_MAIN
@@ -648,10 +794,32 @@ def g_shift(cx):
     s = sp.Symbol('s', real=True)
     a = cx.run(('x', N, n), xs, n)
     b = cx.run(('x+s', N, n), [x + s for x in xs], n)
-    ok, w = is_zero(b.var - a.var)
-    g.ob('var(x+s) == var(x) (so x and x + s always take the same branch of the guard `%s`)' % a.lo_txt(), ok, a.line_var,
-         detail=w if isinstance(w, dict) else {'note': str(w)})
+    if (a.eps, a.strict) != (b.eps, b.strict):
+        raise ExtractionBreak('the form of the variance guard differs between the runs on x and on x + s')
+    okv, w = is_zero(b.var - a.var)
+    g.ob('var(x+s) == var(x)', okv, a.line_var, detail=w if isinstance(w, dict) else {'note': str(w)})
     pair_outputs(g, a, b, n, 'ACF(x + s) == ACF(x)', a.line_of('acf#1', 1, branch='high') or a.line_guard + 17)
+    # the branch: x and x + s on the same side of the guard.
+    gd = '`%s`' % a.hi_txt()
+    if a.simple_guard():
+        proved = okv is True
+        text = ('the branch taken does not depend on the shift s (proved: var(x+s) == var(x) and the guard %s depends on the '
+                'data through var only; cross-checked on the real-code paths at %%(same)d rational (x, s) points)' % gd)
+        why_not = 'var(x+s) == var(x) is not established'
+    else:
+        da, db = guard_diff(a), guard_diff(b)
+        proved = False
+        if okv is True and da and db and da[1] == db[1]:
+            try:
+                proved = is_zero(db[0] - da[0])[0] is True
+            except Exception:
+                proved = False
+        text = ('the branch taken does not depend on the shift s (the guard %s is not a comparison of var with a constant%s; '
+                '%%(same)d rational (x, s) points on the same side)' % (gd, ': proved to be the same expression for x and x + s' if proved else ''))
+        why_not = 'the guard %s does not reduce to the same expression for x and x + s' % gd
+    search = branch_search(a, b, xs, s, (sp.Integer(10 ** 3), sp.Integer(10 ** 6), sp.Integer(-10 ** 6), sp.Rational(-7, 2)))
+    branch_obligation(g, cx, a, b, n, xs, 's', 'x + s', text, proved, why_not, search, lambda v, val: v + val,
+                      ('defect', 'SHIFT DEPENDENCE: the ACF of x + s differs from the ACF of x because the variance guard is not shift invariant'))
     return g.done()
 
 
@@ -664,7 +832,7 @@ def g_scale(cx):
     a = cx.run(('x', N, n), xs, n)
     b = cx.run(('c*x', N, n), [c * x for x in xs], n)
     if (a.eps, a.strict) != (b.eps, b.strict):
-        raise ExtractionBreak('the variance guard differs between the runs on x and on c x')
+        raise ExtractionBreak('the form of the variance guard differs between the runs on x and on c x')
     lk = a.line_of('acf#1', 1, branch='high') or a.line_guard + 17
     pair_outputs(g, a, b, n, 'ACF(c x) == ACF(x), c > 0', lk)
     okv, wv = is_zero(b.var - c ** 2 * a.var)
@@ -672,72 +840,36 @@ def g_scale(cx):
     # (ii) branch independence of c.
     #  proof:   var(c x) == c^2 var(x) (above, is_zero) and c > 0; the guard `v > eps` is invariant under v -> c^2 v for
     #           every real v exactly when eps == 0 (scale_free); then x and c x are always on the same side of the guard.
+    #           A guard of another form `D(x) > 0` is scale free when D(c x) == c^2 D(x) (homogeneous), tried with is_zero.
     #  search:  rational points x and scales c whose real-code paths lie on different sides (finds the witness for an
-    #           absolute threshold eps > 0; a sanity check of the proof for eps == 0).
-    wit, same, skipped = None, 0, 0
-    base = [[0, 1, 0, 2][:N], [1, -1, 1, -1][:N], [0, 0, 1, 1][-N:], [1, 2, 3, 5][:N],
-            [sp.Rational(-7, 3), sp.Rational(5, 2), 0, sp.Rational(1, 9)][:N], [1, 1, 1, 1][:N], [0, 0, 0, 0][:N]]
-    for x0 in base:
-        for cval in (sp.Rational(1, 10 ** 6), sp.Rational(1, 10 ** 3), sp.Integer(10 ** 6)):
-            pt = {x: sp.Rational(v) for x, v in zip(xs, x0[:N])}
-            ptc = dict(pt)
-            ptc[c] = cval
-            try:
-                pa, pb = a.path_at(pt), b.path_at(ptc)
-            except ExtractionBreak:
-                skipped += 1
-                continue
-            if pa.branch == pb.branch:
-                same += 1
-            elif not pa.aborted and not pb.aborted:
-                wit = (x0[:N], cval, pt, ptc, pa, pb)
-                break
-            else:
-                skipped += 1
-        if wit:
-            break
-    proved = okv is True and scale_free(a.eps, a.strict)
+    #           absolute threshold eps > 0 or a threshold that is not homogeneous; a sanity check of the proof otherwise).
     gd = '`%s`' % a.hi_txt()
-    if a.eps == 0:
-        text = ('the branch taken does not depend on the scale c (proved: var(c x) == c^2 var(x) and c > 0, so c^2 var(x) has '
-                'the sign of var(x); the guard %s compares with 0, hence var(c x) %s 0 <=> var(x) %s 0 for every real x; '
-                'cross-checked on the real-code paths at %d rational (x, c) points)'
-                % (gd, '>' if a.strict else '>=', '>' if a.strict else '>=', same))
-    else:
-        text = ('the branch taken does not depend on the scale c (var(c x) = c^2 var(x) is compared with the ABSOLUTE constant %s%s)'
-                % (a.eps_txt(), ' = ' + a.eps_name if a.eps_name else ''))
-    if wit:
-        x0, cval, pt, ptc, pa, pb = wit
-        oa = [fl(pa.acf[k].subs(pt)) for k in sorted(pa.acf)]
-        ob = [fl(pb.acf[k].subs(ptc)) for k in sorted(pb.acf)]
-        side = lambda r, q: r.hi_txt() if q.branch == 'high' else r.lo_txt()       # noqa: E731
-        det = [('witness x', str(tuple(x0))), ('witness c', '%s = %g' % (cval, fl(cval))),
-               ('var(x)', '%.6g  -> branch %s' % (fl(a.var.subs(pt)), side(a, pa))),
-               ('var(c x)', '%.6g  -> branch %s' % (fl(b.var.subs(ptc)), side(b, pb))),
-               ('ACF(x)', json.dumps(oa)), ('ACF(c x)', json.dumps(ob)),
-               ('known defect', '(e): scale invariance of the ACF is broken by the absolute variance threshold')]
-        na = native_run(cx, n, [sp.Rational(v) for v in x0])
-        nb = native_run(cx, n, [sp.Rational(v) * cval for v in x0])
-
-        def as_branch(nat, q):      # the native run took the same side of the guard as the symbolic path q
-            out = nat.get('stdout', '')
-            if q.branch == 'low':
-                return 'WARNING' in out and out.endswith('ACF 1' + ' 0' * n)
-            return 'WARNING' not in out
-        agrees = bool(na.get('exit') == 0 and nb.get('exit') == 0 and as_branch(na, pa) and as_branch(nb, pb))
-        g.native = {'ACF(x) replay': na, 'ACF(c x) replay': nb, 'agrees': agrees}
-        det = det + [('native ACF(x)', na.get('stdout', na.get('error', ''))), ('native ACF(c x)', nb.get('stdout', nb.get('error', '')))]
-        g.ob(text, False, a.line_guard, trace=pb.state.trace, detail=det)
-        g.reason = ('known defect (e): x = %s, c = %g: ACF(x) = %s but ACF(c x) = %s' % (tuple(x0), fl(cval), oa, ob))
-    elif proved and same > 0:
-        g.ob(text, True, a.line_guard)
-    else:
-        why = 'var(c x) == c^2 var(x) is not established' if okv is not True else \
+    if a.simple_guard():
+        proved = okv is True and scale_free(a.eps, a.strict)
+        why_not = 'var(c x) == c^2 var(x) is not established' if okv is not True else \
             'the guard %s is not invariant under var -> c^2 var for every c > 0 (threshold %s != 0)' % (gd, a.eps_txt())
-        if same == 0:
-            why += '; no rational point could be cross-checked on the real-code paths'
-        g.ob(text, None, a.line_guard, detail={'note': 'no witness among the %d candidate points (%d skipped) and not proved: %s'
-                                               % (same, skipped, why)})
+        if a.eps == 0:
+            op = '>' if a.strict else '>='
+            text = ('the branch taken does not depend on the scale c (proved: var(c x) == c^2 var(x) and c > 0, so c^2 var(x) has '
+                    'the sign of var(x); the guard %s compares with 0, hence var(c x) %s 0 <=> var(x) %s 0 for every real x; '
+                    'cross-checked on the real-code paths at %%(same)d rational (x, c) points)' % (gd, op, op))
+        else:
+            text = ('the branch taken does not depend on the scale c (var(c x) = c^2 var(x) is compared with the ABSOLUTE constant %s%s)'
+                    % (a.eps_txt(), ' = ' + a.eps_name if a.eps_name else ''))
+    else:
+        da, db = guard_diff(a), guard_diff(b)
+        proved = False
+        if okv is True and da and db and da[1] == db[1]:
+            try:
+                proved = is_zero(db[0] - c ** 2 * da[0])[0] is True
+            except Exception:
+                proved = False
+        text = ('the branch taken does not depend on the scale c (the guard %s is not a comparison of var with a constant%s; '
+                '%%(same)d rational (x, c) points on the same side)' % (gd, ': proved homogeneous, D(c x) == c^2 D(x)' if proved else ''))
+        why_not = 'the guard %s is not homogeneous of degree 2 in the data' % gd
+    search = branch_search(a, b, xs, c, (sp.Rational(1, 10 ** 6), sp.Rational(1, 10 ** 3), sp.Integer(10 ** 6)))
+    branch_obligation(g, cx, a, b, n, xs, 'c', 'c x', text, proved, why_not, search, lambda v, val: v * val,
+                      ('known defect', 'known defect (e): scale invariance of the ACF is broken by the variance threshold'))
     return g.done()
 
 
